@@ -194,10 +194,63 @@ def t2(ctx, py: PyRepo):
                  'are equal and hash differently (dictionaries in the tool key by definition, not by instance); reported, not a violation')
 
 
+METAVARS_SPEC = {'EVar': set(), 'SVar': set(), 'Symbol': set(), 'Implies': {'left', 'right'}, 'App': {'left', 'right'},
+                 'Exists': {'subpattern'}, 'Mu': {'subpattern'}, 'ESubst': {'pattern', 'plug'}, 'SSubst': {'pattern', 'plug'}}
+
+
+def metavars_arms(ctx, py: PyRepo):
+    """metavars() is the union of the children's sets (the metavariable's own index for MetaVar); the notation node replaces
+    each metavariable of its body by the metavariables of the plug bound to it"""
+    ev = PyEval()
+
+    def children(v):
+        # -> set of child field names whose .metavars() are united, or None
+        if v == ('call', ('name', 'set'), (), ()):
+            return set()
+        if v[0] == 'call' and v[1][0] == 'attr' and v[1][2] == 'metavars' and not v[2] and v[1][1][0] == 'attr' and v[1][1][1] == SELF:
+            return {v[1][1][2]}
+        if v[0] == 'call' and v[1][0] == 'attr' and v[1][2] == 'union' and len(v[2]) >= 1:
+            parts = [children(v[1][1])] + [children(a) for a in v[2]]
+            if all(p_ is not None for p_ in parts):
+                return set().union(*parts)
+        if v[0] == 'binop' and v[1] == 'BitOr':
+            a, b = children(v[2]), children(v[3])
+            if a is not None and b is not None:
+                return a | b
+        return None
+
+    for cname, want in METAVARS_SPEC.items():
+        fn = py.method(cname, 'metavars', 'pattern')
+        rets = [p for p in ev.paths(fn) if p.end[0] == 'return']
+        got = [children(p.end[1]) for p in rets]
+        ok = bool(rets) and all(g == want for g in got)
+        ctx.ob('metavars-arm', cname, ok,
+               f'{cname}.metavars() returns {[show(p.end[1]) for p in rets]}; it must be the union over the pattern-typed fields {sorted(want)}',
+               py.where('pattern', fn))
+    fn = py.method('MetaVar', 'metavars', 'pattern')
+    rets = [p for p in ev.paths(fn) if p.end[0] == 'return']
+    ok = bool(rets) and all(p.end[1] == ('set', (('attr', SELF, 'name'),)) for p in rets)
+    ctx.ob('metavars-arm', 'MetaVar', ok, 'MetaVar.metavars() must be {self.name}', py.where('pattern', fn))
+    # notation node: for v in body.metavars(): inst[v].metavars() if v in inst else {v}
+    fn = py.method('Instantiate', 'metavars', 'pattern')
+    loops = [n for n in ast.walk(fn) if isinstance(n, ast.For)]
+    ok = False
+    if len(loops) == 1 and ast.unparse(loops[0].iter) == 'self.pattern.metavars()' and isinstance(loops[0].target, ast.Name):
+        v = loops[0].target.id
+        src = ast.unparse(loops[0])
+        ok = f'if {v} in self.inst' in src and f'self.inst[{v}].metavars()' in src and f'.add({v})' in src
+    delegated = any(isinstance(n, ast.Return) and n.value is not None and ast.unparse(n.value) == 'self.simplify().metavars()' for n in ast.walk(fn))
+    ctx.ob('metavars-arm', 'Instantiate', ok or delegated,
+           'Instantiate.metavars() must replace each metavariable of the body by the metavariables of its plug (or keep it when unbound), '
+           'or delegate to the expansion', py.where('pattern', fn))
+
+
 def run(ctx):
     py = PyRepo.get()
     t1(ctx, py)
     t2(ctx, py)
+    metavars_arms(ctx, py)
+    ctx.floor('metavars-arm', 11)
     ctx.floor('dispatch-sees-through', 8)
     ctx.floor('notation-delegates', 6)
     ctx.floor('structural-equality', 10)
